@@ -336,6 +336,11 @@ func genCommodityCls(r *rand.Rand, o GOpts, feat map[string]bool, right bool) (s
 // genAmount draws an amount in one of the shapes of 4.2.  Base: `NUMBER UPPER` (right
 // commodity after one blank).
 func genAmount(r *rand.Rand, o GOpts, feat map[string]bool) *GAmount {
+	return genAmountSigned(r, o, feat, true)
+}
+
+// genAmountSigned: allowNeg = false never writes a minus sign (costs are written non-negative).
+func genAmountSigned(r *rand.Rand, o GOpts, feat map[string]bool, allowNeg bool) *GAmount {
 	use := func(name string, k int) bool {
 		if o.on(r, name, k) {
 			feat[name] = true
@@ -345,7 +350,7 @@ func genAmount(r *rand.Rand, o GOpts, feat map[string]bool) *GAmount {
 	}
 	num := genNumber(r, o, feat)
 	sign := ""
-	if use("amt.neg", 3) {
+	if allowNeg && use("amt.neg", 3) {
 		sign = "-"
 	} else if use("amt.plus", 10) {
 		sign = "+"
@@ -672,11 +677,9 @@ func genTransaction(r *rand.Rand, w *lineWriter, o GOpts, feat map[string]bool) 
 			p.Amt = genAmount(r, o, feat)
 			ln.WriteString(genGap(r, o, feat) + p.Amt.Text)
 			if use("cost", 6) {
-				p.Cost = genAmount(r, o, feat)
-				if p.Cost.Value.Sign() < 0 {
-					p.Cost.Value.Neg(p.Cost.Value)
-					p.Cost.Text = strings.Replace(p.Cost.Text, "-", "", 1)
-				}
+				// (removing "the" minus sign from a finished text took the wrong character when a
+				// quoted commodity contained one: the sign is decided before the text is written)
+				p.Cost = genAmountSigned(r, o, feat, false)
 				p.Total = r.IntN(2) == 0
 				op := "@"
 				if p.Total {
@@ -831,6 +834,13 @@ func genJournal(r *rand.Rand, o GOpts) *GJournal {
 		if i < n-1 && o.on(r, "tight", 4) {
 			sep = 0
 			j.Feat["tight"] = true
+		}
+		if i == n-1 && o.on(r, "noeol", 5) {
+			// the file ends with the last character of its last entry: no final line end
+			// (editors do not add one unless asked)
+			j.Feat["noeol"] = true
+			j.Text = strings.TrimSuffix(w.sb.String(), w.nl)
+			return j
 		}
 		for k := 0; k < sep; k++ {
 			w.put("")
